@@ -588,7 +588,7 @@ def main(chk):
         "example/*.pangaea (%d files classified); every program unchanged through every chunking; tokens (string, raw string with, "
         "without and with CR LF line ends, comment, final comment, identifier, identifier?, private identifier, embedded string) of the lengths "
         "1..32, powers of two, 1000..1040, 2030..2060, 3060..3085, 4085..4110, every 250 up to 5000 (quick: about every second) at two "
-        "offsets x the %d chunkings; seeded random tail (1-3 breaks padded at once, sizes up to 5000, random schedules). "
+        "offsets x the %d chunkings; raw strings inside sources given to Str#eval one after the other; seeded random tail (1-3 breaks padded at once, sizes up to 5000, random schedules). "
         "Coq side: matcher strings (padding shapes x sizes x 15 followers, long-token shapes incl. unterminated/escaped, seeded fragment "
         "strings) and lexer runs (token sequences x schedules). non-trivial: padding/token larger than one byte, resp. a string on "
         "which some pattern matches, resp. a stream of more than one token; distinct by the full case key." % (len(BASES), nrepo, len(CHUNKS)))
